@@ -364,6 +364,62 @@ func run(c *fw.Ctx) {
 			}
 		}
 	}
+	// Part 3: nest16 - all 8 leaf types, required and optional, below an
+	// optional group O and a repeated group R.  A record state fixes O in
+	// {nil, present with its optional leaves nil, present with them set} and R
+	// in the lists of length <= 2 over {element with optional leaves nil,
+	// element with them set}: every sequence of <= l3 record states, as one
+	// page and one record per page, values cyclic over the alphabets.
+	l3 := 2
+	if c.Thorough() {
+		l3 = 3
+	}
+	c.Bound("part3_record_states_sequence_length", l3)
+	t3 := sut.Get("nest16")
+	in := t3.Schema().Children[1]
+	elem := func(set bool) refpq.Val {
+		g := make([]refpq.Val, len(in.Children))
+		for i, ch := range in.Children {
+			if ch.Rep == refpq.Optional && !set {
+				g[i] = refpq.Val{Null: true}
+			} else {
+				g[i] = refpq.Val{Leaf: nil}
+			}
+		}
+		return refpq.Val{Group: g}
+	}
+	oStates := []refpq.Val{{Null: true}, elem(false), elem(true)}
+	rStates := []refpq.Val{{}, {List: []refpq.Val{elem(false)}}, {List: []refpq.Val{elem(true)}},
+		{List: []refpq.Val{elem(false), elem(true)}}, {List: []refpq.Val{elem(true), elem(false)}},
+		{List: []refpq.Val{elem(false), elem(false)}}, {List: []refpq.Val{elem(true), elem(true)}}}
+	nst := len(oStates) * len(rStates)
+	for l := 1; l <= l3; l++ {
+		total := 1
+		for i := 0; i < l; i++ {
+			total *= nst
+		}
+		for x := 0; x < total; x++ {
+			if x&63 == 0 && c.Expired() {
+				c.Capped("time budget hit in part 3")
+				return
+			}
+			for rot := 0; rot < 2; rot++ {
+				cnt := rot * 3
+				recs := make([]refpq.Val, l)
+				y := x
+				for i := range recs {
+					st := y % nst
+					y /= nst
+					rec := refpq.Val{Group: []refpq.Val{{Leaf: nil}, oStates[st%len(oStates)], rStates[st/len(oStates)]}}
+					recs[i] = fillAlpha(t3.Schema(), rec, &cnt)
+				}
+				emit(fmt.Sprintf("p3|l%d|x%d|r%d|onepage", l, x, rot), t3, recs, []int{l}, l, sut.Snappy)
+				if l >= 2 {
+					emit(fmt.Sprintf("p3|l%d|x%d|r%d|page1", l, x, rot), t3, recs, []int{l}, 1, sut.Uncompressed)
+				}
+			}
+		}
+	}
 }
 
 // fillAlpha fills leaves with alphabet values chosen cyclically.
@@ -419,7 +475,8 @@ func Main() {
 		ID:    "C12",
 		Level: "exploration",
 		Rule: "part 1: for each of the 24 columns of flat24 (8 types x required/optional/repeated) every ordered page content of length <= m over the type's alphabet (extremes, NaN/Inf, -0, empty/long/non-UTF8 strings, the library's sentinel string), nulls interleaved, as one page and split over pages (page size 1, 2), lists in one record; " +
-			"part 2: person/document (leaves inside optional and repeated groups): every pair of record structures with <= s nodes with alphabet values in several rotations. Oracle on every page the reference parser decodes: null_count == #(def < max); min/max, when present, bound every non-null non-NaN value in the type's order; absent when there is no non-null value. distinct = case tag",
+			"part 2: person/document (leaves inside optional and repeated groups): every pair of record structures with <= s nodes with alphabet values in several rotations; " +
+			"part 3: nest16 (8 types x required/optional below an optional and below a repeated group): every sequence of <= l3 record states (O nil / present with optional leaves nil / set; R every list of <= 2 such elements), so every definition level between 0 and the maximum occurs for every type. Oracle on every page the reference parser decodes: null_count == #(def < max); min/max, when present, bound every non-null non-NaN value in the type's order; absent when there is no non-null value. distinct = case tag",
 		Assumptions: []string{
 			"absent statistics, absent null_count and absent min/max are accepted (the property constrains what is written, and statistics are optional in the format)",
 			"order: signed for int32/int64, unsigned for uint32/uint64 (UINT_32/UINT_64), IEEE for floats with -0 == +0 and NaN values skipped, bytewise for strings",
